@@ -298,6 +298,15 @@ fn strategy() -> BoxedStrategy<AttrCase> {
             prop::option::weighted(0.3, select(vec!["extras = Ctx<'a>", "error = Err<'a>", "source = [u8]"])),
         ),
     );
+    // groups of items that only say something together: overlapping skips where two tie below a third (legal: the third
+    // outranks them wherever they tie), and where two tie for good (rejected, in every order)
+    let bundles: Vec<Vec<(&'static str, bool, bool)>> = vec![
+        vec![("skip(r\"[ \\t]+\", priority = 1)", true, false), ("skip(r\"[ \\t\\r]+\", priority = 1)", true, false), ("skip(r\"[ \\t\\r\\n]+\", priority = 3)", true, false)],
+        vec![("skip(\"a+\", priority = 2)", true, false), ("skip(\"[ab]+\", priority = 2)", true, false), ("skip(\"[a-c]+\", priority = 7)", true, false), ("error = MyError", false, false)],
+        vec![("skip(\"x+\", priority = 4)", true, false), ("skip(\"[xy]+\", priority = 4)", true, false), ("extras = MyExtras", false, false)],
+        vec![("skip(\"k+\", ignore(case), priority = 1)", true, false), ("skip(\"[k-m]+\", priority = 1)", true, false), ("skip(\"[a-zA-Z]+\", priority = 2)", true, false), ("skip \" \"", true, false)],
+    ];
+    let items = (items, prop::option::weighted(0.15, select(bundles))).prop_map(|(items, b)| b.unwrap_or(items));
     (form, lit, pos, prio, cb, ign, greedy, items, any::<u64>(), generic_items)
         .prop_map(|(form, literal, positional_cb, prio, cb, ign, greedy, mut items, perm_seed, generic_items)| {
             let generic = generic_items.is_some();
